@@ -224,7 +224,7 @@ impl Prop for C06 {
 		]
 	}
 	fn expected_probes(&self) -> Vec<&'static str> {
-		vec!["direction_a_files", "direction_b_files", "direction_b_absent_codec_key", "direction_b_metadata_negative_count_block", "direction_b_metadata_split", "apache_avro_read_crate_file", "apache_avro_wrote_file_for_crate"]
+		vec!["long_history", "direction_b_run_of_blocks_without_objects", "direction_a_files", "direction_b_files", "direction_b_absent_codec_key", "direction_b_metadata_negative_count_block", "direction_b_metadata_split", "apache_avro_read_crate_file", "apache_avro_wrote_file_for_crate"]
 	}
 	fn budget(&self, tier: Tier) -> (u64, u64) {
 		match tier {
